@@ -542,9 +542,12 @@ class WFSA:
 
         state_counter = 0
 
-        def get_new_state():
+        def get_new_state(i, a, j):
+            # The chain states are named after the arc they expand, so that byte
+            # automata built from different automata (with distinct state names)
+            # never share a state name when they are merged into one grammar.
             nonlocal state_counter
-            state = f"_bytes{state_counter}"
+            state = ("_bytes", i, a, j, state_counter)
             state_counter += 1
             return state
 
@@ -556,10 +559,10 @@ class WFSA:
                 if len(bs) == 1:
                     byte_wfsa.add_arc(i, bs[0], j, w)
                 else:  # Multi-byte transition
-                    curr = get_new_state()
+                    curr = get_new_state(i, a, j)
                     byte_wfsa.add_arc(i, bs[0], curr, self.R.one)
                     for b in bs[1:-1]:
-                        next_state = get_new_state()
+                        next_state = get_new_state(i, a, j)
                         byte_wfsa.add_arc(curr, b, next_state, self.R.one)
                         curr = next_state
                     byte_wfsa.add_arc(curr, bs[-1], j, w)
